@@ -12,6 +12,7 @@ import (
 	"fmt"
 	"math/rand"
 	"os"
+	"regexp"
 	"runtime"
 	"runtime/debug"
 	"runtime/pprof"
@@ -42,14 +43,15 @@ type Case struct {
 	Rng   *rand.Rand
 	T     *testing.T
 
-	mu         sync.Mutex
-	viols      []Violation
-	counters   map[string]int64
-	marks      []string
-	nontrivial bool
-	sample     any
-	params     any
-	notes      []string
+	mu           sync.Mutex
+	viols        []Violation
+	counters     map[string]int64
+	marks        []string
+	nontrivial   bool
+	sample       any
+	params       any
+	notes        []string
+	inconclusive bool
 }
 
 // Violation records a refutation. It never stops the case: monitors keep observing.
@@ -99,21 +101,22 @@ func (c *Case) Note(format string, a ...any) {
 func (c *Case) Violations() int { c.mu.Lock(); defer c.mu.Unlock(); return len(c.viols) }
 
 type record struct {
-	Kind       string           `json:"kind"` // begin | end | info
-	Check      string           `json:"check"`
-	Seed       int64            `json:"seed"`
-	Index      int              `json:"index"`
-	Shard      string           `json:"shard,omitempty"`
-	Viols      []Violation      `json:"viols,omitempty"`
-	Counters   map[string]int64 `json:"counters,omitempty"`
-	FP         string           `json:"fp,omitempty"`
-	NonTrivial bool             `json:"nontrivial,omitempty"`
-	Sample     any              `json:"sample,omitempty"`
-	Params     any              `json:"params,omitempty"`
-	Notes      []string         `json:"notes,omitempty"`
-	Panic      string           `json:"panic,omitempty"`
-	Stack      string           `json:"stack,omitempty"`
-	WallMS     int64            `json:"wall_ms,omitempty"`
+	Kind         string           `json:"kind"` // begin | end | info
+	Check        string           `json:"check"`
+	Seed         int64            `json:"seed"`
+	Index        int              `json:"index"`
+	Shard        string           `json:"shard,omitempty"`
+	Viols        []Violation      `json:"viols,omitempty"`
+	Counters     map[string]int64 `json:"counters,omitempty"`
+	FP           string           `json:"fp,omitempty"`
+	NonTrivial   bool             `json:"nontrivial,omitempty"`
+	Sample       any              `json:"sample,omitempty"`
+	Params       any              `json:"params,omitempty"`
+	Notes        []string         `json:"notes,omitempty"`
+	Inconclusive bool             `json:"inconclusive,omitempty"`
+	Panic        string           `json:"panic,omitempty"`
+	Stack        string           `json:"stack,omitempty"`
+	WallMS       int64            `json:"wall_ms,omitempty"`
 }
 
 var (
@@ -253,7 +256,17 @@ func runOne(t *testing.T, check string, seed int64, i int, bubble bool, wdSec in
 				if r := recover(); r != nil {
 					if pmsg == "" { // keep an earlier panic of the case body: it is the cause
 						pmsg = "synctest: " + fmt.Sprint(r)
-						pstack = string(debug.Stack())
+						// which goroutines of the bubble are left? (leak / hang triage)
+						var left []string
+						for _, blk := range strings.Split(dumpAll(), "\n\n") {
+							if strings.Contains(blk, "synctest bubble") && !strings.Contains(blk, "vf.runOne") {
+								if len(blk) > 1200 {
+									blk = blk[:1200]
+								}
+								left = append(left, blk)
+							}
+						}
+						pstack = fmt.Sprintf("%d goroutines left in the bubble:\n%s", len(left), strings.Join(left, "\n\n"))
 					}
 				}
 			}()
@@ -270,7 +283,7 @@ func runOne(t *testing.T, check string, seed int64, i int, bubble bool, wdSec in
 	sort.Strings(c.marks)
 	h := sha256.Sum256([]byte(strings.Join(c.marks, "\n")))
 	rec := record{Kind: "end", Check: check, Seed: seed, Index: i, Viols: c.viols, Counters: c.counters,
-		FP: hex.EncodeToString(h[:8]), NonTrivial: c.nontrivial, Sample: c.sample, Params: c.params, Notes: c.notes,
+		FP: hex.EncodeToString(h[:8]), NonTrivial: c.nontrivial, Inconclusive: c.inconclusive, Sample: c.sample, Params: c.params, Notes: c.notes,
 		Panic: pmsg, Stack: trimStack(pstack), WallMS: time.Since(start).Milliseconds()}
 	c.mu.Unlock()
 	emit(rec)
@@ -312,4 +325,110 @@ func TopLibFrame(stack string) string {
 		}
 	}
 	return "?"
+}
+
+// ---------------------------------------------------------------- hang detection (real time)
+
+var goroutineHdr = regexp.MustCompile(`^goroutine (\d+) \[([^\],]+)`)
+
+// libGoroutines parses a full goroutine dump and returns, for every goroutine that has a
+// go-data-transfer (non-test) frame, "topLibFrame@state", plus whether any of them is runnable.
+func libGoroutines(dump string) (parked []string, busy bool) {
+	for _, blk := range strings.Split(dump, "\n\n") {
+		blk = strings.TrimSpace(blk)
+		m := goroutineHdr.FindStringSubmatch(blk)
+		if m == nil || !strings.Contains(blk, "github.com/filecoin-project/go-data-transfer/v2") {
+			continue
+		}
+		state := m[2]
+		fr := TopLibFrame(blk)
+		if fr == "?" {
+			continue
+		}
+		switch state {
+		case "running", "runnable", "syscall":
+			busy = true
+		default:
+			parked = append(parked, fr+"@"+state)
+		}
+	}
+	sort.Strings(parked)
+	return
+}
+
+func dumpAll() string {
+	var b strings.Builder
+	pprof.Lookup("goroutine").WriteTo(&b, 2)
+	return b.String()
+}
+
+// HangCheck runs fn in a goroutine and waits for it in REAL time (use outside bubbles only).
+// If fn has not returned within limit, two goroutine dumps one second apart are compared: when
+// the set of parked library goroutines is identical, none is runnable and at least one waits on
+// a lock, the hang is a confirmed deadlock and reported as a violation of prop with a fingerprint
+// of the parked library frames; otherwise the case is marked inconclusive (busy, never a verdict).
+// The stuck goroutines are leaked on purpose: the process carries on with the next case.
+func (c *Case) HangCheck(prop, what string, limit time.Duration, fn func()) bool {
+	done := make(chan struct{})
+	go func() {
+		defer close(done)
+		defer func() {
+			if r := recover(); r != nil {
+				c.Violation(prop, "panic "+TopLibFrame(string(debug.Stack()))+" "+what, "%s panicked: %v", what, r)
+			}
+		}()
+		fn()
+	}()
+	select {
+	case <-done:
+		return true
+	case <-time.After(limit):
+	}
+	d1 := dumpAll()
+	select {
+	case <-done:
+		return true
+	case <-time.After(1500 * time.Millisecond):
+	}
+	d2 := dumpAll()
+	p1, b1 := libGoroutines(d1)
+	p2, b2 := libGoroutines(d2)
+	onLock := false
+	for _, p := range p2 {
+		if strings.Contains(p, "Mutex") || strings.Contains(p, "semacquire") || strings.Contains(p, "chan") || strings.Contains(p, "select") {
+			onLock = true
+		}
+	}
+	if !b1 && !b2 && onLock && strings.Join(p1, "|") == strings.Join(p2, "|") {
+		// reduce to distinct frames for a stable fingerprint
+		seen := map[string]bool{}
+		var fp []string
+		for _, p := range p2 {
+			if !seen[p] && (strings.Contains(p, "Mutex") || strings.Contains(p, "semacquire") || strings.Contains(p, "chan") || strings.Contains(p, "select")) {
+				seen[p] = true
+				fp = append(fp, p)
+			}
+		}
+		excerpt := ""
+		for _, blk := range strings.Split(d2, "\n\n") {
+			if strings.Contains(blk, "github.com/filecoin-project/go-data-transfer/v2") && len(excerpt) < 5000 {
+				excerpt += blk + "\n\n"
+			}
+		}
+		if dir := os.Getenv("VERIF_DUMPDIR"); dir != "" {
+			os.WriteFile(fmt.Sprintf("%s/hang.%s.%d.%d.txt", dir, c.Check, c.Seed, c.Index), []byte(d2), 0o644)
+		}
+		c.Violation(prop, "hang "+what+": "+strings.Join(fp, " | "), "%s did not return within %v; library goroutines are parked and unchanged between two dumps:\n%s", what, limit, excerpt)
+		return false
+	}
+	c.Inconclusive("%s did not return within %v but the process is still busy (no stable deadlock picture)", what, limit)
+	return false
+}
+
+// Inconclusive marks the case as undecided (watchdog on a busy process, checker timeout ...).
+func (c *Case) Inconclusive(format string, a ...any) {
+	c.mu.Lock()
+	c.notes = append(c.notes, "INCONCLUSIVE: "+fmt.Sprintf(format, a...))
+	c.inconclusive = true
+	c.mu.Unlock()
 }
